@@ -81,13 +81,54 @@ def r1(chk, prog):
 
     def weight(b):
         return sum(1 for e in cfg.elems(b) if isinstance(e, int) and e in emits)
-    # the forced-break token: edge taken when tiWord == "nn"
+    # the forced-break token: edge taken when the word IS the token.  Recognised tests: word == text / text == word /
+    # word.compare( text) == 0 (exact); a sub-range or prefix comparison (compare( pos, n, text), find/rfind,
+    # starts_with) is recognised as the test, but matches more than the token
+    def const_text(n):
+        for x in walk(n):
+            if x.get('k') == 'StringLiteral':
+                return x.get('val')
+            if x.get('k') == 'DeclRefExpr' and x['ref'].get('sto') not in ('local', 'param') and \
+                    'char' in (x['ref'].get('dt') or '') and 'const' in (x['ref'].get('dt') or ''):
+                return '<%s>' % x['ref'].get('name')
+        return None
+
+    def forced_break_test(cond):
+        """(exact?, edge index on which the word is the token) or None"""
+        c0 = strip_all_casts(cond) if cond else None
+        neg = False
+        while c0 is not None and c0.get('k') == 'UnaryOperator' and c0.get('op') == '!':
+            neg = not neg
+            c0 = strip_all_casts(children(c0)[0])
+        if not c0 or not mentions_var(c0, tok):
+            return None
+        txt = const_text(c0)
+        if txt is None or (not txt.startswith('<') and txt != 'nn'):
+            return None
+        if c0.get('k') in CALL_KINDS and c0.get('op') in ('==', '!='):
+            return True, 0 if ((c0.get('op') == '==') != neg) else 1
+        if c0.get('k') == 'BinaryOperator' and c0.get('op') in ('==', '!='):
+            a, b = (strip_all_casts(x) for x in children(c0))
+            if a.get('k') == 'IntegerLiteral':
+                a, b = b, a
+            if a.get('k') == 'CXXMemberCallExpr' and b.get('k') == 'IntegerLiteral':
+                short = (a.get('callee') or '').split('::')[-1]
+                edge = 0 if ((c0.get('op') == '==') != neg) else 1
+                if short == 'compare' and b.get('val') == 0:
+                    return len(call_args(a)) == 1, edge
+                if short in ('find', 'rfind') and b.get('val') == 0:
+                    return False, edge
+        if c0.get('k') == 'CXXMemberCallExpr' and (c0.get('callee') or '').split('::')[-1] in ('starts_with', 'ends_with'):
+            return False, 1 if neg else 0
+        return None
     nn_edges = []
     for bid, cond in cfg.cond_blocks():
-        c0 = strip_all_casts(cond) if cond else None
-        if c0 and c0.get('k') in CALL_KINDS and c0.get('op') == '==' and mentions_var(c0, tok) and any(
-                x.get('k') == 'StringLiteral' and x.get('val') == 'nn' for x in walk(c0)):
-            nn_edges.append((bid, cfg.succ[bid][0], cfg.succ[bid][1]))
+        t = forced_break_test(cond)
+        if t is not None:
+            exact, edge = t
+            nn_edges.append((bid, cfg.succ[bid][edge], cfg.succ[bid][1 - edge]))
+            chk.check(exact, 'R1', f.name, 'the forced-break test compares the whole word with the token', f.loc(cond),
+                      'a prefix / sub-range comparison also consumes every other word that starts like the token')
     chk.require(len(nn_edges) == 1, 'formatLine: test for the "nn" token not found')
     nb, nn_true, nn_false = nn_edges[0]
 
@@ -130,6 +171,8 @@ def r1(chk, prog):
             uses.add((p.get('k'), p.get('op') or p.get('callee', '').split('::')[-1]))
     allowed = {('CXXOperatorCallExpr', '<<'), ('CXXOperatorCallExpr', '=='), ('CXXOperatorCallExpr', '[]'),
                ('CXXMemberCallExpr', 'length'), ('CXXMemberCallExpr', 'size'), ('CXXMemberCallExpr', 'empty'),
+               ('CXXMemberCallExpr', 'compare'), ('CXXMemberCallExpr', 'find'), ('CXXMemberCallExpr', 'rfind'),
+               ('CXXMemberCallExpr', 'starts_with'), ('CXXMemberCallExpr', 'front'), ('CXXMemberCallExpr', 'at'),
                ('DeclStmt', None)}
     extra = {u for u in uses if u not in allowed and u[0] != 'DeclStmt'}
     chk.check(not extra, 'R1', f.name, 'words are not stored, split or reordered', f.loc(), 'other uses: %s' % extra)
